@@ -149,7 +149,7 @@ def run(ctx):
 
     with ctx.obligation("C01.2", "between construction and grouping the stub lists are only permuted", floor=2) as o:
         for g in gens.values():
-            effs = rules.effects_on(prog, g.fn, [g.stubs], scope=g.sc)
+            effs = [e for e in rules.effects_on(prog, g.fn, [g.stubs], scope=g.sc) if not g.in_build(e.node)]
             bad = [e for e in effs if e.kind != "ext:random.shuffle"]
             for e in bad:
                 o.violated(g.fn, e.node, f"{e.kind} on {e.path} changes the stub multiset (stubs dropped, duplicated or re-ordered)")
